@@ -822,6 +822,11 @@ func (w *world) doQuery(q *qSpec, why string) {
 			case "slow":
 				got = append(got, r)
 				time.Sleep(150 * time.Microsecond)
+			case "stall":
+				got = append(got, r)
+				if ngot == q.StallAfter {
+					time.Sleep(time.Duration(q.StallMs) * time.Millisecond)
+				}
 			default:
 				got = append(got, r)
 			}
@@ -830,7 +835,7 @@ func (w *world) doQuery(q *qSpec, why string) {
 	}()
 	select {
 	case <-drained:
-	case <-time.After(120 * time.Second):
+	case <-time.After(120*time.Second + time.Duration(q.StallMs)*time.Millisecond):
 		it.Cancel()
 		w.inconclusive("query %s: result stream did not end within 120 s", q)
 		return
@@ -840,9 +845,16 @@ func (w *world) doQuery(q *qSpec, why string) {
 	w.logf("query(%s) %s -> %d records, err=%v", why, q, ngot, ierr)
 	w.b.Count("query_consume/"+consumeName(q), 1)
 	w.b.Max("query_records_max", int64(ngot))
-	if isTimeout(ierr) {
+	// A consumer that stalls on purpose may make the executor give up: then the stream is
+	// truncated and MUST end with an error; the records that did arrive are still judged.
+	gaveUp := q.Consume == "stall" && isTimeout(ierr)
+	if isTimeout(ierr) && !gaveUp {
 		w.inconclusive("query: %v", ierr)
 		return
+	}
+	if gaveUp {
+		w.b.Count("stall_truncated_with_error", 1)
+		ierr = nil
 	}
 	w.compared++
 	if q.Where != nil {
@@ -866,6 +878,29 @@ func (w *world) doQuery(q *qSpec, why string) {
 			w.viol("query:duplicate", "query", fmt.Sprintf("Query(%s) returned key %q %d times", q, k, n), map[string]any{"query": q, "key": k})
 		}
 	}
+	if gaveUp {
+		// the error was handed over: an incomplete result is what the consumer was told
+		return
+	}
+	stallSoft := q.Consume == "stall" && !w.soft
+	hitsBefore := len(w.softHits)
+	if stallSoft {
+		w.soft = true
+	}
+	defer func() {
+		if !stallSoft {
+			return
+		}
+		w.soft = false
+		missing := w.softHits[hitsBefore:]
+		w.softHits = w.softHits[:hitsBefore]
+		if len(missing) > 0 {
+			w.viol("query:truncated-without-error", "stalled-consumer", fmt.Sprintf("Query(%s): the consumer stalled %d ms after %d records; the stream then ended after %d records with Err() == nil although %d more visible matching records exist (first: %s)",
+				q, q.StallMs, q.StallAfter, ngot, len(missing), missing[0]), map[string]any{"query": q, "received": ngot, "missing": len(missing)})
+		} else {
+			w.b.Count("stall_complete_without_error", 1)
+		}
+	}()
 	want, total := 0, 0
 	for k, mr := range w.m.recs {
 		if mr.tainted {
